@@ -36,7 +36,7 @@ OPS = [
     ['lag', 0], ['lag', 1], ['lag', 2], ['lag', 3], ['lag', 9],
     ['pad_start', 0], ['pad_start', 1], ['pad_start', 2], ['pad_start', 2, 9], ['pad_start', 1, 9],
     ['pad_end', 0], ['pad_end', 1], ['pad_end', 2], ['pad_end', 2, 9], ['pad_end', 1, 9],
-    ['start_with', []], ['start_with', [7]], ['start_with', [7, 8]],
+    ['start_with', []], ['start_with', [7]], ['start_with', [7, 8]], ['start_with_as', 'tuple'], ['start_with_as', 'range'], ['start_with_as', 'str'],
     ['batch', 1], ['batch', 2], ['batch', 3], ['batch', 4], ['batch', 9],
 ]
 PLAIN_OK = {'first', 'last', 'take', 'duc', 'batch'}
@@ -80,6 +80,8 @@ def listdef(o, x):
         return x + [v] * o[1]
     if name == 'start_with':
         return list(o[1]) + x
+    if name == 'start_with_as':
+        return list(opspecs.PADDINGS[o[1]]()) + x
     if name == 'batch':
         return [x[i:i + o[1]] for i in range(0, len(x), o[1])]
     raise ValueError(name)
@@ -201,7 +203,7 @@ def run_case(case, acc):
         for mux in (True, False):
             if (not mux and o[0] not in PLAIN_OK and o[0] not in ('sort', 'to_list')) or (mux and o[0] == 'sort'):
                 continue
-            if not seq and ((not mux and o[0] in ('first', 'last')) or o[0] in ('pad_start', 'pad_end', 'start_with')):
+            if not seq and ((not mux and o[0] in ('first', 'last')) or o[0] in ('pad_start', 'pad_end', 'start_with', 'start_with_as')):
                 continue
             a, b = harness.run_twice([o], items, mux=mux)
             acc.evals += 2
@@ -221,7 +223,7 @@ def run_case(case, acc):
         acc.traces += 1
         exp = [('c', (0,))] + [('n', (0,), y) for y in (listdef(o, seq) if seq or o[0] not in ('pad_start', 'pad_end', 'start_with') else [])] + [('d', (0,)), ('c', (0,)), ('d', (0,)), ('c', (0,))] + \
               [('n', (0,), y) for y in (listdef(o, list(reversed(seq))) if seq or o[0] not in ('pad_start', 'pad_end', 'start_with') else [])] + [('d', (0,))]
-        if o[0] in ('pad_start', 'pad_end', 'start_with') and not seq:
+        if o[0] in ('pad_start', 'pad_end', 'start_with', 'start_with_as') and not seq:
             return []
         if sink.error is not None or sink.items != exp:
             return [viol(o, 'mux', 'reused-key-' + str(harness.diff_kind(exp, sink.items)), {'op': o, 'events': events, 'expected': exp, 'observed': sink.items})]
@@ -229,7 +231,7 @@ def run_case(case, acc):
     if o[0] == 'sort':
         return run_sort(case, acc)
     spec = [o]
-    undefined_empty = (not seq) and o[0] in ('pad_start', 'pad_end', 'start_with')
+    undefined_empty = (not seq) and o[0] in ('pad_start', 'pad_end', 'start_with', 'start_with_as')
     exp = listdef(o, seq)
     # refmodel must agree with the list definition (harness self-check, never a VIOLATION)
     if not undefined_empty and harness.model_all(spec, seq) != exp:
